@@ -12,6 +12,31 @@ CLAIMED = {
         "dec (enc f) = ok f and dec (encNL f) = ok f proved for every well-formed frame (all addresses, types, 0..=255 data bytes), shape / checksum-sum-zero / big-endian address / exact length field / Data::try_new bound proved; the model is tied to frame.rs by running to_bytes, to_bytes_with_newline, from_bytes and Data::try_new (owned and borrowed) and the model driver on the same ~21k (quick) case lines and diffing, plus an independent format!-based encoder as oracle.",
         "Theorems are about lean/Flipdot/Model/Frame.lean, not about the Rust source; the tie is differential testing (address x type grid exhaustive, data contents sampled). regex crate and Vec modelled, not verified.",
         "§6 C01"),
+    "C04": (
+        "Lean 4 theorems on a hand-written model + differential correspondence model vs code (exhaustive where the domain is finite); finite code table closed by decide +kernel over all 256 first bytes per type",
+        "toFrame (toMsg f) = f proved for every frame; toMsg proved equal to a literal restatement of the protocol table (31 rows: type 0 any length, type 1 empty, 29 one-byte rows) for every frame, with unknown_iff and addr_carried as corollaries. Tie: Message::from / Frame::from and the model run on all 256 types x 256 first bytes (length 1) plus other lengths and all recognised codes across addresses (192k lines quick, complete product in thorough), and a third independent table in the harness as oracle.",
+        "Theorems are about lean/Flipdot/Model/Message.lean; the tie to message.rs is the (finite-domain, largely exhaustive) differential run. Found and repaired F1 (type-0 frames with 0/1 data byte).",
+        "§6 C04"),
+    "C05": (
+        "Lean 4 theorems on a hand-written model + differential correspondence model vs code (exhaustive where the domain is finite)",
+        "toMsg (toFrame m) = m for every specific message, (dec (enc (toFrame m))).map toMsg = ok m (with and without CRLF) and injectivity of the wire encoding on specific messages, for all addresses/offsets/counts, states, operations and data blocks up to 255 bytes. Tie: the full pipeline on the real crates for every kind x data length 0..=255 x address samples (all 65536 in thorough for address-only kinds), with a collision map as injectivity oracle.",
+        "Builds on C01's codec theorems; same trusted base. Finding F1 was detected here first and is fixed in /repo (65fb976).",
+        "§6 C05"),
+    "C06": (
+        "Lean 4 theorems on a hand-written model + differential correspondence model vs code (exhaustive where the domain is finite); bit facts by decide +kernel over 256 bytes x 8 x 8 bit positions",
+        "get-after-set, frame condition for every other pixel (byte/bit injectivity), preservation of id/dimensions/length/padding, set-all, out-of-bounds = panic, in-bounds = no panic, and the history theorem (any sequence of in-bounds set/clear/set-all refines plain function update, by induction over the operation list) proved for every well-formed page of any dimensions. Tie: Page::{new,from_bytes,get_pixel,set_pixel,set_all_pixels,as_bytes,id} vs the model on a complete box of sizes, all out-of-bounds probes and random operation sequences on owned and borrowed pages, plus a Vec<Vec<bool>> shadow oracle.",
+        "u32/usize arithmetic modelled in Nat (no overflow possible with 64-bit usize and u32 dimensions); allocation failure for absurd sizes outside the model.",
+        "§6 C06"),
+    "C07": (
+        "Lean 4 theorems on a hand-written model + differential correspondence model vs code (exhaustive where the domain is finite)",
+        "new_bytes (header + w*ceil(h/8) zeros + 0xFF padding to a multiple of 16, pad < 16), pixel_location (byte 4 + x*ceil(h/8) + y/8, bit y%8 from the LSB), location_injective, location_in_data, fromBytes_ok_iff / fromBytes_err / fromBytes_asBytes proved for all sizes. Tie: complete size box (0..=9 x 0..=33 thorough) + 11 sign sizes + large sizes, every pixel of small pages, lengths total+-{0,1,15,16}, all 256 ids; oracle recomputes the layout independently.",
+        "Same as C06.",
+        "§6 C07"),
+    "C19": (
+        "Lean 4 theorems on a hand-written model + differential correspondence model vs code (exhaustive where the domain is finite); the 11-constructor table closed by cases/decide",
+        "16-byte length, decode-after-encode, field consistency (height byte, Max3000 width sum, Horizon width = A1*B1+A2*B2, bits per column) against dims, the virtual sign's derivation configDims t.toBytes = dims t, totality (no panic) of decoding, rejection of every length other than 16, and acceptance of a 16-byte block iff its (family,id) is a supported type's — for all byte strings. Tie: all 11 types, all 65536 (family,id) pairs, random strings of length 0..=40, and a virtual sign configured with each block accepting exactly one page of the type's size.",
+        "The model's type table is a third copy of the two Rust tables; a typo kept in sync between the two Rust tables shows as a correspondence difference or a broken field-consistency oracle.",
+        "§6 C19"),
 }
 
 PENDING = {}
